@@ -3,6 +3,8 @@ package simos
 import (
 	"path/filepath"
 	"sort"
+
+	"github.com/google/pprof/internal/verifsim/simrt"
 )
 
 // Harness-facing control of the simulated kernel. None of these functions is
@@ -245,3 +247,20 @@ func Exited() (bool, int) { return k.exited, k.exitCode }
 
 // Base is filepath.Base (convenience for engines).
 func Base(p string) string { return filepath.Base(p) }
+
+// MarkBase makes fault-plan and log indices relative to the next I/O call.
+//
+//go:norace
+func MarkBase() { k.base = simrt.PeekIO() }
+
+// ClearFired zeroes the fault and op counters (the log is kept).
+//
+//go:norace
+func ClearFired() {
+	for i := range k.fired {
+		k.fired[i] = 0
+	}
+	for i := range k.opsCnt {
+		k.opsCnt[i] = 0
+	}
+}
